@@ -5,6 +5,16 @@ HERE = os.path.dirname(os.path.dirname(os.path.abspath(__file__)))
 ALL = ['C%02d' % i for i in range(1, 21)]
 
 CLAIMED = {
+ 'C16': dict(
+    level='model_checking',
+    text='NumText.tla states every clause of the property on byte texts and exact decimal digit sequences (shape and sign position, '
+         'plain integer form, at most 7/17 significant digits, the numeral within half a unit of its last shown digit of the exact value, '
+         'PRINT = STR$, same digits for x and -x, read-back through VAL/INPUT/READ); values travel through compiled programs on the real '
+         'VM and Trace_NumText.tla decides each recorded case; MC_NumText.tla checks the spec\'s own integer text and scanner operators '
+         'against each other on every INTEGER. Thorough tier covers all 65536 INTEGERs; quick every 8th plus boundaries.',
+    note='Trusted: TLC, the tick observer, decimal.Decimal(float) for the exact expansion of a binary float (data the spec cannot compute: TLC has 32-bit integers and no reals).',
+    technique='TLA+ predicates on digit sequences evaluated by TLC per recorded case (trace validation), exhaustive over INTEGER',
+    design='6 C16'),
  'C19': dict(
     level='model_checking',
     text='Using.tla holds the format scanner and the rendering of a value in a field on exact decimal digit sequences (rounding with '
